@@ -29,6 +29,7 @@ EXPLANATION = (
     "value provenance of every write to Dependency::is_dynamic and PendingDynamicBranch::is_asset (T4), and the gating "
     "conditions of each edge kind compared with the walker (T12)."
 )
+EXPLANATION += " " + "Further decision-point rules found by seeded changes and the machine-generated sweep: precedence of the sources of a module's types dependency, which Import records are dynamic, type resolutions written only when the kind includes types, descriptor / dependency loops never stop early, a redirected load keeps the request's context, resolved_roots only for root requests, and the dependency collector's handler coverage (shared with C08)."
 NOT_DECIDED = "that recorded specifier text / attributes / resolved targets equal what the source declares under an arbitrary resolver; media-type dispatch outcomes; that nothing unreachable is present"
 CONFIGS = ["default", "nofastcheck"]  # thorough tier also analyses the build without fast_check / symbols
 ASSUMPTIONS = []
